@@ -33,6 +33,8 @@ type gen struct {
 	w *bufio.Writer
 	// thorough tier: allow the big sizes more often
 	big bool
+	// kind of the packet the case under generation is about
+	lastKind string
 }
 
 func (g *gen) emit(format string, a ...interface{}) {
@@ -563,11 +565,18 @@ func (g *gen) genHist(n int) {
 				g.emit("STR p")
 				g.emit("DUMP p")
 			}
+			if g.chance(0.12) {
+				// encoded in the middle of the history (whatever an encoder remembers must not outlive the next setter)
+				g.emit("ENC p")
+			}
 		}
 		g.emit("ENC p")
 		g.emit("STR p")
 		g.emit("DUMP p")
 		g.emit("WF p")
+		// "the encoded frame reflects the same final state": what the library reads back from its own frame
+		g.emit("VIEW p")
+		g.emit("RDP p q")
 	}
 }
 
@@ -642,6 +651,14 @@ func runGen(class string, seed int64, n int, w *bufio.Writer) {
 		g.genSeq(n)
 	case "malformed":
 		g.genMalformed(n)
+	case "biglist":
+		g.genBigList(n)
+	case "nonmin":
+		g.genNonMin(n)
+	case "wfrd":
+		g.genWFRD(n)
+	case "vbframe":
+		g.genVBFrame(n)
 	case "first":
 		g.genFirst(n)
 	case "pool":
